@@ -47,8 +47,8 @@ func genEngineCase(t *rapid.T) engineCase {
 	return c
 }
 
-var factsPart = pbt.Part[schemaCase]{Name: "facts-generate-convert", Quick: 16000, Thorough: 300000, Gen: genSchemaCase, Check: checkSchemaCase}
-var enginePart = pbt.Part[engineCase]{Name: "engine-introspection", Quick: 4000, Thorough: 80000, Gen: genEngineCase, Check: checkEngineCase}
+var factsPart = pbt.Part[schemaCase]{Name: "facts-generate-convert", Quick: 16000, Thorough: 200000, Gen: genSchemaCase, Check: checkSchemaCase}
+var enginePart = pbt.Part[engineCase]{Name: "engine-introspection", Quick: 4000, Thorough: 60000, Gen: genEngineCase, Check: checkEngineCase}
 
 // ---- attribution of differences to recorded findings ------------------------------------------
 
@@ -794,7 +794,9 @@ func evalEngineCase(c engineCase, o *pbt.Rec) (*verdictBuilder, pbt.Verdict) {
 			v.add(shapeFinding, fmt.Sprintf("%s: engine answers with errors: %s", tag, short(errs)))
 			continue
 		}
+		explainable = func(d introDiff) bool { return classifyIntroDiff(d, l.shape) != "" }
 		diffs := cmpIntro(want, resp["data"], "data")
+		explainable = nil
 		for _, d := range diffs {
 			id := shapeFinding
 			if id == "" {
